@@ -58,15 +58,15 @@ def parse_texpr(world, t):
 INTS = (0, 2147483647, -2147483648, 2147483648, -2147483649)
 
 
-def gen(t, depth=0):
+def gen(t, depth=0, extra=False):
     """(json value, literal text) candidates for type expression t"""
     if t.endswith("!"):
-        yield from gen(t[:-1], depth)
+        yield from gen(t[:-1], depth, extra)
         return
     yield (None, "null")
     if t.startswith("["):
         item = t[1:-1]
-        items = [x for x in gen(item, depth + 1)][: (4 if depth == 0 else 2)]
+        items = [x for x in gen(item, depth + 1, extra)][: (4 if depth == 0 else 2)]
         yield ([], "[]")
         for v, l in items:
             yield ([v], "[%s]" % l)
@@ -88,14 +88,24 @@ def gen(t, depth=0):
     elif t == "Boolean":
         yield (True, "true")
         yield (False, "false")
+        if extra:                           # structurally wrong: a list / an object where a scalar is expected
+            yield ([True], "[true]")
+            yield ([], "[]")
+            yield ({"a": 1}, "{a: 1}")
+            yield ({}, "{}")
     elif t == "ID":
         yield ("a", '"a"')
         yield (12, "12")
+        if extra:
+            yield (["a"], '["a"]')
+            yield ({"a": 1}, "{a: 1}")
     elif t == "Color":
         yield ("RED", "RED")
         yield ("BLUE", "BLUE")
         yield ("GREEN", "GREEN")
         yield ([["RED"]], "[[RED]]")
+        if extra:
+            yield ({"a": 1}, "{a: 1}")
     elif t == "In":
         reqs = [(1, "1"), (None, "null"), (OMIT, None)]
         opts = [(OMIT, None), (2, "2"), (None, "null")]
@@ -175,11 +185,15 @@ def spec_coerce(world, t, v):
 TYPE_EXPRS = ("Int", "Int!", "String", "Boolean!", "ID", "Color", "Color!", "In", "In!", "[Int]", "[Int!]", "[Int!]!", "[[Int]]", "[Color!]", "[In!]", "[[In]!]")
 
 
+# appended later (the case table is append-only: recorded witnesses index into it); these also get structurally wrong values for Boolean / ID / enum
+MORE_TYPE_EXPRS = ("Boolean", "[Boolean]", "ID!", "[ID!]", "[Color]", "[Boolean!]!")
+
+
 def build_cases():
     cases = []
-    for t in TYPE_EXPRS:
+    for t in TYPE_EXPRS + MORE_TYPE_EXPRS:
         seen = set()
-        for v, l in gen(t):
+        for v, l in gen(t, 0, t in MORE_TYPE_EXPRS):
             key = json.dumps(v, sort_keys=True)
             if key in seen:
                 continue
@@ -403,6 +417,107 @@ def _argument_matrix(fam: int, nonnull: bool, adef: int, pyname: bool, supply: i
     return result(ok, exp[0] != "error")
 
 
+# ------------------------------------------------------------------ variables INSIDE object / list literals
+#  (argument type, literal with $v, kind of the position, the position declares a default)
+NESTED_POSITIONS = (
+    ("In", "{req: 1, opt: $v}", ("field", "opt", False, False)), ("In", "{req: 1, dflt: $v}", ("field", "dflt", False, True)), ("In", "{req: $v}", ("field", "req", True, False)),
+    ("[Int]", "[1, $v]", ("item", None, False, False)), ("[Int!]", "[1, $v]", ("item", None, True, False)),
+    ("In", "{req: 1, self: {req: 2, opt: $v}}", ("nested-field", "opt", False, False)), ("[In]", "[{req: $v}]", ("item-field", "req", True, False)),
+)
+NESTED_SUPPLIES = ("value", "null", "omitted", "omitted-vdefault", "value-vdefault")
+
+
+def _nested_variables(pos: int, supply: int, var_nonnull: bool) -> bool:
+    """
+    pre: 0 <= pos < len(NESTED_POSITIONS) and 0 <= supply < len(NESTED_SUPPLIES)
+    post: _
+    """
+    at, lit, (kind, fname, pos_nonnull, pos_default) = pick(pos, NESTED_POSITIONS)
+    SU = pick(supply, NESTED_SUPPLIES)
+    VNN = True if var_nonnull else False
+    if VNN and "vdefault" in SU:
+        return result(True, False)
+    with untraced():
+        decl = "$v: Int%s%s" % ("!" if VNN else "", " = 9" if "vdefault" in SU else "")
+        variables = {"value": {"v": 4}, "null": {"v": None}, "omitted": {}, "omitted-vdefault": {}, "value-vdefault": {"v": 4}}[SU]
+        calls, res = run_request(at, "query (%s) { f(x: %s) }" % (decl, lit), variables)
+        # ---- oracle: spec 5.8.5 (position), 6.1.2 (variables), 3.x literal coercion with variables (graphql reference: valueFromAST)
+        allowed = not (pos_nonnull and not VNN and not ("vdefault" in SU or pos_default))
+        if not allowed or (VNN and SU in ("null", "omitted")):
+            return result(calls == [] and bool(res.errors), False)
+        present = SU != "omitted"
+        value = {"value": 4, "null": None, "omitted-vdefault": 9, "value-vdefault": 4}.get(SU)
+        if known.c07_omitted_variable_in_literal(present):
+            return result(True, False)
+        error = False
+        if kind in ("field", "nested-field", "item-field"):
+            if not present:
+                inner = {"dflt": 7} if fname == "dflt" else {}
+                error = pos_nonnull
+            else:
+                error = pos_nonnull and value is None
+                inner = {fname: value}
+            base = {"req": 1, "dflt": 7, "col": "blue"}
+            if kind == "field":
+                exp = dict(base, **inner)
+            elif kind == "nested-field":
+                exp = dict(base, self=dict({"req": 2, "dflt": 7, "col": "blue"}, **inner))
+            else:
+                exp = [dict({"dflt": 7, "col": "blue"}, **inner)]
+        else:
+            item = value if present else None
+            error = pos_nonnull and item is None
+            exp = [1, item]
+        if error:
+            ok = calls == [] and bool(res.errors)
+        else:
+            ok = calls == [{"d": 5, "x": exp}] and not res.errors
+    return result(ok, not error)
+
+
+# ------------------------------------------------------------------ one selection node, several runtime object types
+def _per_type_arguments(order: int, supply: int, via: int) -> bool:
+    """
+    pre: 0 <= order <= 2 and 0 <= supply <= 3 and 0 <= via <= 2
+    post: _
+    """
+    O, SU, V = concrete_int(order, 0, 2), concrete_int(supply, 0, 3), concrete_int(via, 0, 2)
+    with untraced():
+        from py_gql.schema import InterfaceType
+        unit = EnumType("Unit", [EnumValue("METER", "m"), EnumValue("FOOT", "ft")])
+        seen = []
+
+        def rec(tag):
+            def r(root, ctx, info, **kw):
+                seen.append((tag, kw))
+                return 1
+            return r
+        shape = InterfaceType("Shape", [Field("size", Int, args=[Argument("unit", unit, default_value="m"), Argument("scale", Int)])], resolve_type=lambda v, *_: v["t"])
+        square = ObjectType("Square", [Field("size", Int, args=[Argument("unit", unit, default_value="ft", python_name="u"), Argument("scale", Int, default_value=3)], resolver=rec("Square"))],
+                            interfaces=[shape])
+        circle = ObjectType("Circle", [Field("size", Int, args=[Argument("unit", unit, default_value="m"), Argument("scale", Int), Argument("extra", Int, default_value=9)], resolver=rec("Circle"))],
+                            interfaces=[shape])
+        q = ObjectType("Query", [Field("shapes", ListType(shape))])
+        schema = Schema(q, types=[square, circle])
+        items = ([{"t": "Square"}, {"t": "Circle"}], [{"t": "Circle"}, {"t": "Square"}], [{"t": "Circle"}, {"t": "Square"}, {"t": "Circle"}, {"t": "Square"}])[O]
+        args = ("", "(scale: 5)", "(unit: FOOT)", "(scale: $s)")[SU]
+        sel = ("size%s" % args, "...F", "... on Shape { size%s }" % args)[V]
+        text = "query %s{ shapes { %s } }%s" % ("($s: Int) " if SU == 3 else "", sel, (" fragment F on Shape { size%s }" % args) if V == 1 else "")
+        res = graphql_blocking(schema, text, variables={"s": 8} if SU == 3 else {}, root={"shapes": items})
+        given = {0: {}, 1: {"scale": 5}, 2: {"unit": "ft"}, 3: {"scale": 8}}[SU]
+
+        def expected(t):
+            if t == "Square":
+                out = {"u": "ft", "scale": 3}
+                out.update({("u" if k == "unit" else k): v for k, v in given.items()})
+            else:
+                out = {"unit": "m", "extra": 9}
+                out.update(given)
+            return (t, out)
+        ok = not res.errors and seen == [expected(i["t"]) for i in items]
+    return result(ok, True)
+
+
 CONDITIONS = [
     Cond(
         name="nullable_var_nonnull_arg", fn=_nullable_var_nonnull_arg, quick=60, thorough=60,
@@ -425,6 +540,20 @@ CONDITIONS = [
         symbolic={"fam,nonnull,adef,pyname,supply,consumer": "choice"},
         assumptions=["oracle: spec 6.4.1 CoerceArgumentValues + 5.8.5 IsVariableUsageAllowed transcribed in spec_argument / position_allowed"],
         witness={"fam": 0, "nonnull": False, "adef": 1, "pyname": True, "supply": 5, "consumer": False},
+    ),
+    Cond(
+        name="nested_variables", fn=_nested_variables, quick=60, thorough=60,
+        bound="a variable used INSIDE a literal: 7 positions (optional / defaulted / required input-object field, item of [Int] and [Int!], field of a nested object, field of an object in a list) x 5 supplies "
+              "(value, null, omitted, omitted with a variable default, value with a variable default) x nullable / non-null variable: resolver kwargs equal the specification's literal coercion "
+              "(a variable without a runtime value = absent field / null item)",
+        symbolic={"pos,supply,var_nonnull": "choice"}, assumptions=["oracle: spec 3.x literal input coercion with variables, 5.8.5, 6.1.2"],
+        witness={"pos": 0, "supply": 0, "var_nonnull": False},
+    ),
+    Cond(
+        name="per_type_arguments", fn=_per_type_arguments, quick=60, thorough=60,
+        bound="ONE field node (directly, through a named fragment, through an inline fragment on the interface) executed for list items of two object types whose definitions of the field differ in argument "
+              "default, python_name and an extra defaulted argument x 3 item orders x 4 supplies (none, literal, enum literal, variable): every resolver receives the arguments of ITS OWN field definition",
+        symbolic={"order,supply,via": "choice"}, witness={"order": 0, "supply": 0, "via": 0},
     ),
     Cond(
         name="int_variable", fn=_int_variable, quick=30, thorough=120,
